@@ -16,7 +16,7 @@ RULE = (
     "{0,2,3 probes} x screening (sampled on the last three axes); quick is a seeded sample that always contains "
     "k=1, N mod k = 0, N mod k != 0, N < k and N = 0. non-trivial = run with N >= 1 in which every frame's "
     "contents, labels and per-step records were compared with the recorded update returns; distinct = (N, k, mode, "
-    "thermalisation, probes, screening)"
+    "thermalisation, probes, screening); plus runs with the live monitor requested (refresh interval always elapsed)"
 )
 REQUIRED_COUNTERS = ["runs_checked", "frame_content_checks", "record_checks", "solution_checks", "stop_rule_checks"]
 CASE_TIMEOUT = {"quick": 600, "thorough": 1200}
@@ -92,7 +92,19 @@ def gen_cases(tier, seed):
             # very small time steps (1e-12 .. 1e-8): a step is a step however small
             N = int(rng.integers(3, 13)); k = int(rng.integers(1, N + 2))
             cases.append(_tiny(_case(rng, N, k, "fixed", bool(j % 2), int([0, 2, 3][j % 3]), False), float([1e-9, 1e-12, 3e-9, 1e-8, 2e-10, 1e-11][j])))
+        for j in range(6):
+            # the live monitor is requested with a refresh interval (wall-clock seconds) that has always elapsed: which frames
+            # exist is still decided by the save interval alone (the plotting process itself is not started by the harness)
+            N = int(rng.integers(4, 13)); k = int([N + 1, 3, 5][j % 3])
+            c_ = _case(rng, N, k, ["fixed", "adaptive"][j % 2], bool(j % 4 == 3), int([0, 2][j % 2]), False)
+            c_["options"].update(output="file", monitor=True, monitor_update_interval=1e-9)
+            cases.append(c_)
     else:
+        for j in range(40):
+            N = int(rng.integers(4, 13)); k = int([N + 1, 3, 5, 1][j % 4])
+            c_ = _case(rng, N, k, ["fixed", "adaptive"][j % 2], bool(j % 4 == 3), int([0, 2, 3][j % 3]), False)
+            c_["options"].update(output=["file", "temp"][j % 5 == 4], monitor=True, monitor_update_interval=float([1e-9, 1e-3][j % 7 == 6]))
+            cases.append(c_)
         for N in range(0, 13):
             for k in range(1, N + 3):
                 for mode in ("fixed", "adaptive"):
